@@ -395,14 +395,18 @@ REJECT_CLASS = {"let": "VariableTypeMismatch", "ret": "FunctionOutputTypeMismatc
                 "arg": "NoOverload", "field": "StructFieldTypeMismatch", "variant": "VariantConstructorTypeArgMismatch"}
 
 
-def program(pos, r, s):
+def program(pos, r, s, prepared=None):
     """source of a program that places supplied type s where r is required, or None if s has no expression.
-    Generic names: T,U,V belong to the receiving declaration (bindable in arg/field/variant), X,Y to the wrapper."""
-    w = Wrapper()
-    try:
-        e = w.expr(s)
-    except NoExpr:
-        return None
+    Generic names: T,U,V belong to the receiving declaration (bindable in arg/field/variant), X,Y to the wrapper.
+    `prepared` = (Wrapper, expression text): an expression of type s built elsewhere (e.g. a generic call)."""
+    if prepared is not None:
+        w, e = prepared
+    else:
+        w = Wrapper()
+        try:
+            e = w.expr(s)
+        except NoExpr:
+            return None
     rg = generics_of(r)
     sg = [g for t in [t for _, t in w.params] for g in generics_of(t)]
     if pos in ("let", "ret", "default"):
@@ -437,6 +441,162 @@ def oracle_accepts(pos, r, s):
     if pos in ("let", "ret", "default"):
         return not env
     return True
+
+
+# ---------------------------------------------------------------- results of generic calls
+CALL_GENS = ["Ga", "Gb", "Gc"]
+CONCRETE = [I, S, F, NAT("Sequence", I), TUP(I, S), CMP("S", "A")]
+
+
+def gen_generic_call(rng):
+    """a generic function with 2-3 generic parameters, and arguments that bind a random subset of them while the others
+    meet only bottom-typed arguments: (gens, params, ret, argument types)"""
+    gens = CALL_GENS[:rng.choice([2, 2, 3])]
+    pats = []
+    for g in gens:
+        pats += [G(g), NAT("Sequence", G(g)), NAT("Optional", G(g)), NAT("Generator", G(g))]
+    for g in gens:
+        for h in gens:
+            if g != h:
+                pats += [TUP(G(g), G(h)), NAT("Sequence", TUP(G(g), G(h)))]
+    n = rng.choice([1, 2, 2, 3, 3])
+    params = [rng.choice(pats) for _ in range(n)]
+    rets = [TUP(*[NAT("Sequence", G(g)) for g in gens]), TUP(*[G(g) for g in gens]), NAT("Mapping", G(gens[0]), G(gens[1])),
+            NAT("Sequence", TUP(*[G(g) for g in gens])), CMP("S", "C", G(gens[0]), G(gens[-1])), NAT("Optional", G(gens[-1])),
+            CALL([G(gens[0])], G(gens[1]))]
+    ret = rng.choice(rets)
+    inst = {g: rng.choice(CONCRETE) for g in gens}
+    bottom = {g for g in gens if rng.random() < 0.45}
+
+    def arg_of(p_):
+        k = p_[0]
+        if k == "g":
+            return U if p_[1] in bottom else inst[p_[1]]
+        if k == "t":
+            return ("t", tuple(arg_of(c) for c in p_[1]))
+        if k == "n":
+            inner = tuple(arg_of(c) for c in p_[2])
+            if p_[1] in ("Sequence", "Optional", "Generator") and rng.random() < 0.25:
+                return NAT(p_[1], U)        # `[]`, `none()`, `[].to_generator()`
+            return ("n", p_[1], inner)
+        return p_
+    args = [arg_of(p_) if rng.random() < 0.9 else U for p_ in params]
+    return gens, params, ret, args
+
+
+def call_result(gens, params, ret, args):
+    """the documented result type of the call: the return type with every generic parameter replaced by what the
+    arguments bind it to - the bottom type when it met nothing but the bottom type"""
+    env = Oracle.assign_all(list(zip(params, args)))
+    if env is None:
+        return None
+    return substitute(ret, {g: env.get(g, U) for g in gens})
+
+
+# calls of library functions with two generic parameters: (expression, signature, argument types)
+LIB_GENERIC_CALLS = [
+    ('mapping<int>().set(1, error("x"))',
+     FUNC(["K", "V"], [NAT("Mapping", G("K"), G("V")), G("K"), G("V")], 3, NAT("Mapping", G("K"), G("V"))),
+     [NAT("Mapping", I, U), I, U]),
+    ('mapping<str>().set("a", none())',
+     FUNC(["K", "V"], [NAT("Mapping", G("K"), G("V")), G("K"), G("V")], 3, NAT("Mapping", G("K"), G("V"))),
+     [NAT("Mapping", S, U), S, NAT("Optional", U)]),
+    ('mapping<int>().update([])',
+     FUNC(["K", "V"], [NAT("Mapping", G("K"), G("V")), NAT("Sequence", TUP(G("K"), G("V")))], 2, NAT("Mapping", G("K"), G("V"))),
+     [NAT("Mapping", I, U), NAT("Sequence", U)]),
+    ('mapping<int>().set(2, [])',
+     FUNC(["K", "V"], [NAT("Mapping", G("K"), G("V")), G("K"), G("V")], 3, NAT("Mapping", G("K"), G("V"))),
+     [NAT("Mapping", I, U), I, NAT("Sequence", U)]),
+]
+
+
+def concretise(rng, t):
+    """t with every unknown replaced by some concrete type"""
+    k = t[0]
+    if k == "u": return rng.choice(CONCRETE)
+    if k == "t": return ("t", tuple(concretise(rng, c) for c in t[1]))
+    if k == "n": return ("n", t[1], tuple(concretise(rng, c) for c in t[2]))
+    if k == "c": return ("c", t[1], t[2], tuple(concretise(rng, c) for c in t[3]))
+    if k == "k": return ("k", tuple(concretise(rng, c) for c in t[1]), concretise(rng, t[2]))
+    return t
+
+
+def run_generic_calls(chk, rng, quick):
+    n = 260 if quick else 6000
+    cases = []   # (label, wrapper, expression, result type S, model line or None)
+    for _ in range(n):
+        gens, params, ret, args = gen_generic_call(rng)
+        res = call_result(gens, params, ret, args)
+        w = Wrapper()
+        try:
+            aes = [w.expr(a) for a in args]
+        except NoExpr:
+            continue
+        w.n += 1
+        fname = f"gf{w.n}"
+        w.helpers.append(f"fn {fname}<{', '.join(gens)}>({', '.join(f'a{i}: {src(p_)}' for i, p_ in enumerate(params))})"
+                         f"->{src(ret)}{{error(\"b\")}}\n")
+        expr = f"{fname}({', '.join(aes)})"
+        mline = "ty call " + tstr(FUNC(gens, params, len(params), ret)) + (" " + " ".join(tstr(a) for a in args) if args else "")
+        cases.append(("user", w, expr, res, mline, (gens, params, ret, args)))
+    for expr, sig, args in LIB_GENERIC_CALLS:
+        res = call_result(list(sig[1]), list(sig[2]), sig[4], args)
+        for _ in range(3 if quick else 12):
+            cases.append(("library", Wrapper(), expr, res, "ty call " + tstr(sig) + " " + " ".join(tstr(a) for a in args), None))
+    # model: the inferred result type
+    mres = run_model([c[4] for c in cases])
+    progs = []
+    for (label, w, expr, res, mline, info), gm in zip(cases, mres):
+        chk.evaluations += 1
+        chk.count("gcall:" + label)
+        want_m = "err" if res is None else "ok " + tstr(res)
+        if (gm.startswith("err") and want_m != "err") or (gm.startswith("ok") and gm != want_m):
+            chk.violation("unit:call-rtype:model", f"model result type of the call {mline!r} is {gm}; the documented rules give {want_m}",
+                          {"model": mline, "expected": want_m}, no_input=True)
+        if res is None:
+            chk.count("gcall:no-binding")
+            continue
+        if has_unknown(res): chk.count("gcall:result-has-bottom-completed-generic")
+        if info and any(a != U and not has_unknown(a) for a in info[3]) and has_unknown(res): chk.count("gcall:partly-bound")
+        # required types: the result with every bottom replaced by something concrete (must be accepted), and a spoiled one
+        rs = [concretise(rng, res)]
+        if declarable(res): rs.append(res)
+        bad = mutate(rng, rs[0], S_ATOMS_WIDE[:4] + S_ATOMS_WIDE[7:], False)
+        if declarable(bad): rs.append(bad)
+        for r in rs:
+            if not declarable(r) or generics_of(r):
+                continue
+            for pos in POSITIONS:
+                w2 = Wrapper(); w2.params = list(w.params); w2.helpers = list(w.helpers); w2.n = w.n
+                p = program(pos, r, res, prepared=(w2, expr))
+                if p is None:
+                    continue
+                progs.append((pos, r, res, p, oracle_accepts(pos, r, res)))
+            # a container element next to a concrete value: the common type of the call's result and r
+            w2 = Wrapper(); w2.params = list(w.params); w2.helpers = list(w.helpers); w2.n = w.n
+            pr = w2.param(r)
+            params_s = ", ".join(f"{nm}: {src(t)}" for nm, t in w2.params)
+            p = PRELUDE + "".join(w2.helpers) + f"fn w({params_s})->int{{ let v: {src(NAT('Sequence', r))} = [{expr}, {pr}]; 0 }}\n"
+            j = Oracle.join(res, r)
+            progs.append(("element", r, res, p, j is not None and Oracle.assign_all([(r, j)]) == {}))
+    resps = run_harness([{"op": "run", "src": x[3], "compile_only": True} for x in progs], per_req_timeout=20.0)
+    for (pos, r, res, p, want), resp in zip(progs, resps):
+        chk.evaluations += 1
+        replay = {"op": "run", "src": p, "compile_only": True, "position": pos, "required": tstr(r), "call_result": tstr(res)}
+        c = resp.get("compile")
+        if c is None:
+            chk.violation("gcall:compiler-panic", f"the compiler panicked on {p!r}: {json.dumps(resp)[:300]}", replay)
+            continue
+        got = c == "ok"
+        chk.count(f"gcall:{pos}:" + ("accept" if got else "reject"))
+        chk.nontrivial.add(("gcall", pos, tstr(r), tstr(res)))
+        if got != want:
+            chk.violation(f"gcall:{pos}:{'unsound-accept' if got else 'spurious-reject'}",
+                          f"result of a generic call (documented type {tstr(res)}) used in position {pos} where {tstr(r)} is required: "
+                          f"compiler {'accepts' if got else 'rejects with ' + str(c.get('class')) + ' ' + c.get('msg', '')[:120]}, the documented "
+                          f"rules say {'accept' if want else 'reject'}; program: {p!r}", dict(replay, expected="accept" if want else "reject"))
+    for x in progs[:2]:
+        chk.sample({"generic-call": x[3]})
 
 
 # ---------------------------------------------------------------- the check
@@ -700,6 +860,9 @@ def run(chk):
                           f"{'accept' if want else 'reject'}: {p!r}", replay)
         elif gm.startswith("ok") != got or (not got and gm != "err " + c.get("class", "?")):
             chk.violation("tie:lang:call", f"model {gm} vs implementation {c}: {p!r}", dict(replay, model=gm), no_input=True)
+
+    # ------------------------------------------------------------------ results of generic calls used in every position
+    run_generic_calls(chk, rng, quick)
 
     # ------------------------------------------------------------------ witnesses of the repaired defects (regression replay)
     for key, srcp, want_ok in WITNESSES:
